@@ -366,6 +366,14 @@ fn history_inputs(t: &mut Tape, cfg: &crate::cfggen::CfgInfo) -> Vec<(String, St
     for prefix in ["test", "abcdef", "x", "Z9_$"] {
         pool.push((format!("function f(a, b) {{ const __datadog_{prefix}_0 = a; return a + b + `${{a}}`.trim(); }}\n"), format!("/app/src/clash_{}.js", prefix.len())));
     }
+    // refused only by the per-block check (a mere reference, after temporaries have been handed out in that block)
+    for prefix in ["test", "abcdef", ""] {
+        pool.push((format!("function f(a, b) {{ return __datadog_{prefix}_7 + a() + b() + a.trim(b(), a()); }}\n"), format!("/app/src/clashref_{}.js", prefix.len())));
+        pool.push((format!("function f(a, b) {{ const k = a() + b() + `${{a()}}${{b()}}`; {{ label: {{ k.trim(__datadog_{prefix}_1); }} }} return k; }}\n"), format!("/app/src/clashnested_{}.js", prefix.len())));
+    }
+    // needs no temporary at all / exactly one: anything left over from an earlier call shows
+    pool.push(("function f(a, b) { return a + b; }\n".to_string(), "/app/src/notemps.js".to_string()));
+    pool.push(("function f(a, b) { { return a() + b; } }\n".to_string(), "/app/src/onetemp.js".to_string()));
     let _ = cfg;
     pool.push(("function f(a, b) { return a + b; }\n//# sourceMappingURL=missing.js.map\n".to_string(), "/app/src/mapped.js".to_string()));
     pool.push(("function f(a, b) { return a.trim() + b; }\n//# sourceMappingURL=data:application/json;base64,e30=\n".to_string(), "/app/src/inline.js".to_string()));
@@ -394,7 +402,14 @@ impl Check for C16 {
         let mut cfgs = vec![];
         for i in 0..ncfg {
             let fixed = t.chance(170);
+            let empty_prefix = t.chance(25);
             let mut c = gen_cfg(&mut t, &CfgOpts { fixed_prefix: fixed, rich: true });
+            if empty_prefix {
+                // an explicitly configured empty prefix is a prefix like any other (it is not "omitted")
+                let mut j = c.json.clone();
+                j["localVarPrefix"] = json!("");
+                c = info_from_json(&j);
+            }
             if i == 0 || t.flag() {
                 // chaining matters for history dependence through source maps
                 let mut j = c.json.clone();
